@@ -141,8 +141,25 @@ def check_num_bits(ctx, F, nb, nw, adt):
     want = sym.mk_bin('Mul', ('c', '<Word as BitArray>::BITS'), ('call', nw.defpath, (('in', (1, 'deref')),), None))
     if r is not None and effects.strip_uid(r.ret) == want:
         ctx.ok('R4', role, nb.defpath, sym.show(r.ret), key=key)
-    else:
-        ctx.bad('R4', role, nb.defpath, 'returns %s' % (sym.show(r.ret) if r else 'several paths'), key=key, loc=rules.loc(nb))
+        return
+    # the word count written out in place: compare `num_bits / Word::BITS` with the body of num_words() as affine forms
+    _, pw = rules.evaluate(nw)
+    rw = only_return(pw)
+    got = effects.strip_uid(r.ret) if r is not None else None
+    W = ('c', '<Word as BitArray>::BITS')
+    if got is not None and rw is not None and got[0] == 'bin' and got[1].split('.')[0] == 'Mul' and W in (got[2], got[3]):
+        words = got[3] if got[2] == W else got[2]
+        try:
+            a = sym.affine(iter_len_term(rules.inline_pure(F, words, depth=2)))
+            b = sym.affine(iter_len_term(effects.strip_uid(rules.inline_pure(F, rw.ret, depth=2))))
+            if a is not None and b is not None and effects.affine_eq(a, b):
+                return ctx.ok('R4', role, nb.defpath, 'Word::BITS * (%s), the word count of num_words() written out' % sym.show(words)[:100], key=key)
+            if a is not None and b is not None:
+                return ctx.bad('R4', role, nb.defpath, 'returns Word::BITS * (%s) while num_words() is %s' % (sym.show(words)[:100], sym.show(rw.ret)[:100]), key=key, loc=rules.loc(nb))
+        except Exception:
+            pass
+        return ctx.unresolved('R4', role, nb.defpath, 'returns %s, not comparable with num_words()' % sym.show(got)[:120], key=key)
+    ctx.bad('R4', role, nb.defpath, 'returns %s' % (sym.show(r.ret) if r else 'several paths'), key=key, loc=rules.loc(nb))
 
 
 def check_range_sizes(ctx, F):
@@ -486,6 +503,68 @@ def check_valid_bits(ctx, F):
     except _NoModel as u:
         ctx.unresolved('R6', role, ANS, 'formula outside the model: %s' % u, key=key)
         return
+    # ---- the empty coder (state == 0, nothing on the bulk): leading_zeros = S, no chunks, nothing remaining.  The formula
+    # must come out as 0 without any intermediate subtraction going below zero (a panic in debug builds, 2^64 - 1 "valid bits"
+    # in release builds); `BITS - 1 - leading_zeros`, the usual bit-position idiom, is only right for a non-zero state.
+    keyE = 'R6/valid-bits-empty/' + ANS
+    roleE = 'num_valid_bits() of an empty coder is 0 and no subtraction in it underflows'
+
+    class _Underflow(Exception):
+        pass
+
+    def ev_empty(t):
+        if sym.is_int(t):
+            return Poly.const(t[1])
+        if t[0] == 'c':
+            if t[1] == '<Word as BitArray>::BITS':
+                return W
+            if t[1] == '<State as BitArray>::BITS':
+                return S
+            raise _NoModel('constant ' + t[1])
+        if t[0] == 'cast':
+            return ev_empty(t[2])
+        if t[0] == 'bin':
+            op = t[1].split('.')[0]
+            if op in ('Add', 'Sub', 'Mul'):
+                a, b = ev_empty(t[2]), ev_empty(t[3])
+                if op == 'Sub':
+                    d = a - b
+                    # S >= 2 (a state holds at least two words of at least one bit)
+                    if not d.nonneg() and not d.subst('S', Poly.var('S') + Poly.const(2)).nonneg():
+                        raise _Underflow('(%s) - (%s)' % (a, b))
+                    return d
+                return a + b if op == 'Add' else a * b
+            raise _NoModel('operator ' + t[1])
+        if t[0] == 'call':
+            nm = t[1]
+            if nm.endswith('BoundedReadWords::remaining') and _is_field(t[2][0], 'bulk'):
+                return Poly.const(0)
+            if nm.endswith('leading_zeros') and _is_field(t[2][0], 'state'):
+                return S
+            if nm.endswith('ExactSizeIterator::len') and t[2][0][0] == 'call' and ch is not None and t[2][0][1] == ch.defpath and _is_field(t[2][0][2][0], 'state'):
+                return Poly.const(0)
+            if nm in ('core::cmp::max', 'core::cmp::Ord::max') and len(t[2]) == 2:
+                a, b = ev_empty(t[2][0]), ev_empty(t[2][1])
+                if (a - b).nonneg():
+                    return a
+                if (b - a).nonneg():
+                    return b
+                raise _NoModel('max(%s, %s) not decided' % (a, b))
+            if nm.endswith('::saturating_sub') and len(t[2]) == 2:
+                a, b = ev_empty(t[2][0]), ev_empty(t[2][1])
+                return a - b if (a - b).nonneg() else Poly.const(0)
+            raise _NoModel('call ' + nm)
+        raise _NoModel('term ' + sym.show(t)[:60])
+    try:
+        ge = ev_empty(term)
+        if ge.is_zero():
+            ctx.ok('R6', roleE, ANS, 'with leading_zeros = State::BITS and an empty bulk the formula evaluates to 0, every subtraction stays non-negative', key=keyE)
+        else:
+            ctx.bad('R6', roleE, ANS, 'num_valid_bits = %s evaluates to %s for an empty coder (state 0, empty bulk) instead of 0' % (sym.show(term)[:160], ge), key=keyE, loc=rules.loc(nv))
+    except _Underflow as u:
+        ctx.bad('R6', roleE, ANS, 'num_valid_bits = %s: for an empty coder (state 0, leading_zeros = State::BITS) the subtraction %s goes below zero - a panic in debug builds, 2^64 - 1 valid bits in release builds' % (sym.show(term)[:160], u), key=keyE, loc=rules.loc(nv))
+    except _NoModel as u:
+        ctx.unresolved('R6', roleE, ANS, 'formula outside the model: %s' % u, key=keyE)
     want = n * W
     model = 'after k words were absorbed: remaining = n - k, bitlen(state) = 1 + k*W, leading_zeros = S - 1 - k*W, state chunks = k + 1'
     # reachable states: the loop stops when the state is full (S = (k+1)*W) or when the data ran out first (k = n)
